@@ -26,6 +26,7 @@ pub fn history_shape(sc: &Scenario) -> String {
             BOp::SetLength(None) => "set_length(None)",
             BOp::Write(_) => "write",
             BOp::Batch(_) => "batch",
+            BOp::BatchLazy(..) => "batch_lazy",
             BOp::WriteTlv(..) => "write_tlv",
         });
     }
@@ -57,7 +58,7 @@ impl Check for C09 {
     fn runs(&self, tier: Tier) -> u64 {
         match tier {
             Tier::Quick => 200_000,
-            Tier::Thorough => 10_000_000,
+            Tier::Thorough => 40_000_000,
         }
     }
     fn generate(&self, rng: &mut Rng, _index: u64, _tier: Tier) -> Scenario {
